@@ -316,7 +316,30 @@ def call_front(case, selfobj, others, outobj, fn, threads=None):
                                checked=o["checked"], num_threads=threads, **kw)
 
 
+class CaseTimeout(Exception):
+    pass
+
+
+def _alarm(signum, frame):
+    raise CaseTimeout()
+
+
 def run_real(case, threads=None):
+    """build, call, observe (under a watchdog: a call that does not return within 30 s is an observation 'hang')"""
+    import signal
+    old = signal.signal(signal.SIGALRM, _alarm)
+    signal.setitimer(signal.ITIMER_REAL, 30.0)
+    try:
+        return run_real_(case, threads)
+    except CaseTimeout:
+        return {"outcome": "raise", "exc": "Hang", "msg": "no return within 30 s", "before": {"self": None, "others": [], "out": None},
+                "after": None, "ran": None}
+    finally:
+        signal.setitimer(signal.ITIMER_REAL, 0)
+        signal.signal(signal.SIGALRM, old)
+
+
+def run_real_(case, threads=None):
     """build, call, observe.  Returns a dict of canonical observations; never raises."""
     B = I.Built()
     kindname = case["kind"]
@@ -362,6 +385,8 @@ def run_real(case, threads=None):
     except RecursionError:
         res["outcome"] = "raise"
         res["exc"] = "RecursionError"
+    except CaseTimeout:
+        raise
     except Exception as e:  # noqa: BLE001
         res["outcome"] = "raise"
         res["exc"] = type(e).__name__
@@ -820,6 +845,8 @@ def check_case(case, mres):
         frame(mt, "mt")
         if mt["outcome"] != "ok" and st["outcome"] != "ok":
             count("mt-vs-st:both-raise")           # which exception comes first is not promised
+        elif kindname == "lazy" and (o["bs"] is not None or o["names"] != "absent" or has_out or o["dev"] != "absent"):
+            count("mt-vs-st:gray lazy stack with batch_size= / names= / device= / out= in a thread pool")
         elif inplace and has_out and not o["leaf_nont"] and any(e[0] == "T" for _, e in I.walk(case["self"])):
             count("mt-vs-st:gray inplace + out= + non-tensor entries")    # the single-threaded form copies out's non-tensor data into self
         else:
